@@ -13,3 +13,9 @@ package expression
 //@   assumed
 //@   modifies nothing
 //@   emits Call(code("expression|IEvaluator.EvaluateExpression"), this, data)
+
+// Engines are stateful (an evaluation merges the caller's variables into the engine's own tables), so an engine must
+// belong to the evaluation that asked for it: every lookup calls a registered constructor.
+//@ func GetEngine
+//@   prop C17 C04
+//@   ensures [every-lookup-builds-an-engine-of-its-own] !unchangedKind(FnCall)
